@@ -1,6 +1,7 @@
 """C19 Reports are well-formed for any names."""
 import os
 import random
+import re
 import shutil
 
 from .. import gen as G
@@ -138,6 +139,10 @@ def one_case(arg):
             if pr.returncode == 0:
                 roots = [rootsp]
         lf = prof == "lf" or any(b"\n" in n for n in [en.name for tr in seen.values() if tr.kind == "tree" for en in tr.entries])
+        # the recorded finding needs the name itself to carry LF followed by citation-shaped text ("ab\n[9]  cd"); a name with a
+        # plain LF is printed over two lines, which the parser joins, and breaks nothing
+        lf_cite = any(re.search(rb"\n\s*\[\d+\]", n) for n in [en.name for tr in seen.values() if tr.kind == "tree" for en in tr.entries]
+                      + [x.encode("utf-8", "surrogateescape") if isinstance(x, str) else x for x in roots])
         lfname = any("\n" in s for s in [x for x in DISPLAY if ('name = ' + cfg_quote_value(x)) in m.config])
         out["hostile"] = True
         sel = ["--branches", "--tags", "--remotes", "--include", "refs/misc"] if roots else []
@@ -192,8 +197,20 @@ def one_case(arg):
             probs = P.footnote_discipline(tab)
             out["cites"] = len([x for x in tab.rows if x.citation is not None])
             if probs:
-                if lf and any(b"\n" in tx for tx in _footnote_region(r.out)):
+                # the recorded finding is about what a name's OWN line feed does to the footnote block. Neutralise exactly
+                # those line feeds (each name occurs verbatim in a correct table) and judge again: if the table is then in
+                # order, the names alone explain the problem; if not, something else is wrong as well
+                lfnames = sorted({n for n in [en.name for tr in seen.values() if tr.kind == "tree" for en in tr.entries] if b"\n" in n},
+                                 key=lambda n: -len(n))
+                neutral = r.out
+                for n in lfnames:
+                    neutral = neutral.replace(n, n.replace(b"\n", b"\\n"))
+                rest = P.footnote_discipline(P.parse_table(neutral, lenient=True)) if lfnames else probs
+                if lf and lf_cite and not rest:
                     cls = "lf-in-cited-path"
+                elif lf and any(b"\n" in tx for tx in _footnote_region(r.out)):
+                    cls = "lf-in-cited-path/not-explained-by-the-names-own-line-feeds"
+                    probs = rest or probs
                 elif lfname:
                     cls = "lf-in-refgroup-display-name"
                 else:
